@@ -16,7 +16,7 @@ CHECKS = {
    note="gopher-lua under default options is the baseline of (a); (b) uses programs with known values; (c) trusts the slice models and the documented capacity rule",
    technique="property-based metamorphic testing across configurations, boundary sweeps, and stateful model-based testing (rapid)"),
  "C11": dict(engine="E5 cancellation enumeration", level="fault_enumeration", design="DESIGN.md 4/C11",
-   text="35 non-terminating and terminating script templates and generated programs are cancelled at every main-thread dispatch poll and inside every tick() host call of a bounded prefix, with fixed and auto-growing call stacks; after cancel() returns no host call may start, DoString must return an error carrying the context's reason within a bounded number of further polls, never a Go panic; blocked channel receive/send/select must wake; generated programs run with and without a never-done context must behave identically",
+   text="37 non-terminating and terminating script templates and generated programs are cancelled at every main-thread dispatch poll and inside every tick() host call of a bounded prefix, with fixed and auto-growing call stacks; after cancel() returns no host call may start, DoString must return an error carrying the context's reason within a bounded number of further polls, never a Go panic; blocked channel receive/send/select must wake; generated programs run with and without a never-done context must behave identically",
    note="trusts that the VM polls the context once per dispatched instruction; cancellation points of one script are enumerated completely within the stated prefix, the set of scripts is fixed plus generated; the blocked-channel verdict uses goroutine-state sampling with a confirming observation",
    technique="fault injection: exhaustive enumeration of cancellation points over script templates and generated programs, counting (not timing) oracle"),
  "C05": dict(engine="E1 fault enumeration", level="fault_enumeration", design="DESIGN.md 4/C05",
